@@ -129,14 +129,14 @@ const NASTY: &[&str] = &[
 /// (non-existent / private fields in patterns and expressions, wrong arity, wrong generic count, missing trait method…).
 const XMOD: &str = "library;\npub struct SvPoint { pub x: u64, pub y: u64 }\npub struct SvPriv { pub a: u64, b: u64 }\npub struct SvGen<T> { pub t: T }\npub enum SvEn { A: u64, B: (u64, bool), C: () }\npub trait SvTr { fn m(self) -> u64; }\nimpl SvTr for SvPoint { fn m(self) -> u64 { self.x } }\npub fn sv_fn(a: u64, b: bool) -> u64 { if b { a } else { 0 } }\npub const SV_C: u64 = 7;\npub fn sv_mk() -> SvPriv { SvPriv { a: 1, b: 2 } }\n";
 const XUSE: &[&str] = &[
-    "fn sv_x1(p: SvPoint) -> u64 { match p { SvPoint { x, z } => x } }",
+    "fn sv_x1(p: SvPoint) -> u64 { match p { SvPoint { x, z } => x, } }",
     "fn sv_x2(p: SvPoint) -> u64 { let SvPoint { x, w } = p; x }",
-    "fn sv_x3(p: SvPriv) -> u64 { match p { SvPriv { a, b } => a } }",
+    "fn sv_x3(p: SvPriv) -> u64 { match p { SvPriv { a, b } => a, } }",
     "fn sv_x4(p: SvPriv) -> u64 { p.b }",
     "fn sv_x5() -> SvPriv { SvPriv { a: 1, b: 2 } }",
     "fn sv_x6(p: SvPoint) -> u64 { p.q }",
-    "fn sv_x7(e: SvEn) -> u64 { match e { SvEn::A(x, y) => x, SvEn::D => 0, _ => 1 } }",
-    "fn sv_x8(e: SvEn) -> u64 { match e { SvEn::B((a, b, c)) => a, _ => 0 } }",
+    "fn sv_x7(e: SvEn) -> u64 { match e { SvEn::A(x, y) => x, SvEn::D => 0, _ => 1, } }",
+    "fn sv_x8(e: SvEn) -> u64 { match e { SvEn::B((a, b, c)) => a, _ => 0, } }",
     "fn sv_x9() -> u64 { sv_fn(1) }",
     "fn sv_x10() -> u64 { sv_fn(1, true, 2) }",
     "fn sv_x11(g: SvGen) -> u64 { 0 }",
@@ -145,10 +145,10 @@ const XUSE: &[&str] = &[
     "impl SvTr for SvPriv { }",
     "impl SvTr for SvEn { fn m(self) -> u64 { 0 } fn k(self) -> u64 { 1 } }",
     "fn sv_x14() -> u64 { SV_C(1) }",
-    "fn sv_x15(p: SvPoint) -> u64 { match p { SvPoint { x: SvPoint { x, y }, .. } => x } }",
-    "fn sv_x16(p: SvPoint) -> u64 { match p { SvGen { t } => t } }",
+    "fn sv_x15(p: SvPoint) -> u64 { match p { SvPoint { x: SvPoint { x, y }, .. } => x, } }",
+    "fn sv_x16(p: SvPoint) -> u64 { match p { SvGen { t } => t, } }",
     "fn sv_x17(e: SvEn) -> u64 { let SvEn::A(v) = e; v }",
-    "fn sv_x18(p: SvPriv) -> u64 { match p { SvPriv { a, .. } | SvPriv { b, .. } => 1 } }",
+    "fn sv_x18(p: SvPriv) -> u64 { match p { SvPriv { a, .. } | SvPriv { b, .. } => 1, } }",
 ];
 
 fn idents(src: &str) -> Vec<(usize, usize)> {
